@@ -9,6 +9,7 @@ import z3
 from . import z as Z
 from .types import *
 from .values import *
+from .repo import ExternalRef
 
 
 class N:
@@ -362,6 +363,12 @@ class Spec:
     def unchanged(self, obj, *fields):
         return z3.And(*[z3.Select(self.ctx.rd(self.new_heap, f), obj.id) == z3.Select(self.ctx.rd(self.old_heap, f), obj.id) for f in fields])
 
+    def bound_method(self, obj, fn_key):
+        """the value of `obj.method` (a bound method is identified by function and receiver)"""
+        fi = self.ctx.repo.get(fn_key)
+        sv = SV(obj.t, obj.ty) if not isinstance(obj, SV) else obj
+        return self.ctx.to_val(BoundMethod(sv, fi)).t
+
     def any_index(self, name="j_any"):
         """a fresh arbitrary index: a clause stated for it holds for every index (the constant is unconstrained)"""
         from .engine import fresh
@@ -444,6 +451,9 @@ class Contract:
         self.has_events = ns.get("has_events", False)
         self.never_returns = ns.get("never_returns", False)
         self.new_object = ns.get("new_object")
+        self.emits_after = ns.get("emits_after")  # (c, ctx, outcome, value, **views): events appended once the outcome is known
+        self.is_async = ns.get("is_async", False)  # abstract coroutine function: the call returns an awaitable
+        self.closure_env = ns.get("closure_env")  # (ctx, I, bound) -> [dict]: free variables of a nested function under contract
         self.static = ns.get("static")  # (E) -> {label: bool}: facts decided on the AST itself (class resolution, wiring)
         self.witness = ns.get("witness")  # () -> dict of real objects satisfying requires (vacuity guard for quantified preconditions)
 
